@@ -23,6 +23,7 @@
 #include <errno.h>
 #include <sys/mman.h>
 #include <sys/wait.h>
+#include <signal.h>
 #include <fcntl.h>
 #include <string>
 #include <vector>
@@ -216,15 +217,40 @@ static int kind_by_name( const std::string & s ) {
     return -1;
 }
 
+// small fixed-capacity dict / set (no heap traffic: the explorer builds millions of models)
+#define MCAP 64
+struct Dict {
+    int k[MCAP];
+    AI * v[MCAP];
+    int n;
+    Dict() : n( 0 ) {}
+    int find( int key ) const { for( int i = 0; i < n; i++ ) if( k[i] == key ) return i; return -1; }
+    int count( int key ) const { return find( key ) >= 0; }
+    AI * get( int key ) const { int i = find( key ); return i < 0 ? 0 : v[i]; }
+    void put( int key, AI * p ) {
+        int i = find( key );
+        if( i < 0 ) { if( n >= MCAP ) abort(); i = n++; k[i] = key; }
+        v[i] = p;
+    }
+    void erase( int key ) { int i = find( key ); if( i >= 0 ) { n--; k[i] = k[n]; v[i] = v[n]; } }
+    void clear() { n = 0; }
+};
+struct IdSet {
+    Dict d;
+    int count( int key ) const { return d.count( key ); }
+    void insert( int key ) { d.put( key, 0 ); }
+    void erase( int key ) { d.erase( key ); }
+};
+
 // reference model: a list (insertion order) + a dict (id -> instance); everything else is derived
 struct Model {
     std::vector<MEntry> L;
-    std::map<int, AI *> D;
+    Dict D;
     std::vector<MEntry> released;       // instances handed back by ClearInstances, sorted by (id,type,age)
     int seenMax;                        // highest id seen/handed out since the manager was last emptied; -1 none
     int histMax;                        // highest id ever seen in this history (range of the id look-ups)
-    std::set<int> deleted;              // ids deleted and not live (only to label the id re-use outcome)
-    Model() : seenMax( -1 ), histMax( 0 ) {}
+    IdSet deleted;                      // ids deleted and not live (only to label the id re-use outcome)
+    Model() : seenMax( -1 ), histMax( 0 ) { L.reserve( 16 ); }
     int index_of( AI * p ) const {
         for( size_t i = 0; i < L.size(); i++ ) if( L[i].p == p ) return ( int )i;
         return -1;
@@ -320,7 +346,8 @@ static void check_all( World & w, Viol & v, std::vector<int> * canon ) {
         v.set( "InstanceCount", fmt( "InstanceCount()=%d, live instances=%d", n, ( int )m.L.size() ) );
         return;
     }
-    std::vector<MgrNode *> nodes( n );
+    if( n > MCAP ) abort();
+    MgrNode * nodes[MCAP];
     for( int i = 0; i < n; i++ ) {
         MgrNode * node = im->GetMgrNode( i );
         nodes[i] = node;
@@ -366,8 +393,7 @@ static void check_all( World & w, Viol & v, std::vector<int> * canon ) {
             got = -2;
             for( int i = 0; i < n; i++ ) if( nodes[i] == r ) { got = i; break; }
         }
-        std::map<int, AI *>::iterator it = m.D.find( k );
-        int exp = ( it == m.D.end() ) ? -1 : m.index_of( it->second );
+        int exp = m.D.count( k ) ? m.index_of( m.D.get( k ) ) : -1;
         if( canon ) canon->push_back( got );
         if( got != exp ) {
             if( exp == -1 ) v.set( "FindFileId-stale", fmt( "FindFileId(%d) returns %s but no live instance carries #%d", k, got >= 0 ? fmt( "the node at index %d", got ).c_str() : "a node that is not in the manager", k ) );
@@ -392,6 +418,7 @@ static void check_all( World & w, Viol & v, std::vector<int> * canon ) {
         if( canon ) canon->push_back( ec );
         if( ec != cnt ) { v.set( "EntityKeywordCount", fmt( "EntityKeywordCount(%s)=%d expected %d", QNAME[q], ec, cnt ) ); return; }
         for( int s = 0; s <= ( q < 3 ? n : 0 ); s++ ) {   // the two alternate spellings: start 0 only
+            if( q == 2 && s != 0 && s != n ) continue;    // the absent name: first and last start only
             AI * r = im->GetApplication_instance( QNAME[q], s );
             int got = ( r == ENTITY_NULL ) ? -1 : ( r == 0 ? -3 : m.index_of( r ) );
             if( r != ENTITY_NULL && r != 0 && got < 0 ) got = -2;
@@ -493,7 +520,7 @@ static void do_append( World & w, const OpDef & d, AI * p, int type, stateEnum s
         MEntry e;
         e.p = p; e.id = nid; e.type = type; e.state = ( int )st;
         m.L.push_back( e );
-        m.D[nid] = p;
+        m.D.put( nid, p );
         m.saw( nid );
         m.deleted.erase( nid );
         if( released_ix >= 0 ) m.released.erase( m.released.begin() + released_ix );
@@ -655,6 +682,7 @@ static bool replay_prefix( World & w, int kind, const unsigned char * hist, int 
 
 // ---------------------------------------------------------------------------------- explorer
 #define MAXD 12
+#define MAXCRASH 64
 struct Item {
     unsigned char h[MAXD];
     H128 hash;
@@ -713,7 +741,8 @@ static void worker( int fd, int kind, int depth, const std::vector<Item> & front
             const Item & item = frontier[it];
             PG->item = it;
             bool first = true;
-            std::vector<char> enabled( OPS.size(), 1 );   // known after the first replay (depends on the model state only)
+            char enabled[64];
+            memset( enabled, 1, sizeof enabled );   // known after the first replay (depends on the model state only)
             for( size_t oi = 0; oi < OPS.size(); oi++ ) {
                 SkipKey sk = { it, ( int )oi };
                 bool skipped = skip.count( sk ) > 0;
@@ -743,7 +772,7 @@ static void worker( int fd, int kind, int depth, const std::vector<Item> & front
                         break;
                     }
                 }
-                if( enabled.size() && oi == 0 ) {
+                if( oi == 0 ) {
                     for( size_t q = 0; q < OPS.size(); q++ ) enabled[q] = op_enabled( w.m, OPS[q] ) ? 1 : 0;
                 }
                 const OpDef & d = OPS[oi];
@@ -890,6 +919,8 @@ static int explore_kind( int kind, int maxdepth, int jobs, std::string & json, s
         tot.states = 1;
     }
     std::string levels = "[";
+    std::string aborted;
+    int64_t kind_crashes = 0;
     Progress * pg = ( Progress * )mmap( 0, sizeof( Progress ) * 256, PROT_READ | PROT_WRITE, MAP_SHARED | MAP_ANONYMOUS, -1, 0 );
     char errtmpl[200];
     snprintf( errtmpl, sizeof errtmpl, "%s/instmgr_mc.%d", access( "/dev/shm", W_OK ) == 0 ? "/dev/shm" : "/tmp", ( int )getpid() );
@@ -968,8 +999,20 @@ static int explore_kind( int kind, int maxdepth, int jobs, std::string & json, s
                 // crashed: attribute to (item, op, phase) from the shared progress cell, skip that transition, restart
                 int64_t citem = pg[k].item;
                 int cop = pg[k].op, cphase = pg[k].phase, cstep = pg[k].step;
-                std::string err = read_file( ws[k].errfile, 60000 );
+                std::string err = read_file( ws[k].errfile, 12000 );
                 level_crashes++;
+                if( ++kind_crashes > MAXCRASH ) {
+                    // a tree in which nearly everything crashes: stop this kind, report it as a cap
+                    aborted = fmt( "more than %d crashing transitions, exploration stopped at depth %d", MAXCRASH, depth + 1 );
+                    for( int q = 0; q < nw; q++ ) if( ws[q].fd >= 0 ) {
+                            kill( ws[q].pid, SIGKILL );
+                            waitpid( ws[q].pid, 0, 0 );
+                            close( ws[q].fd );
+                            ws[q].fd = -1;
+                        }
+                    live = 0;
+                    break;
+                }
                 if( !crashes_json.empty() ) crashes_json += ",";
                 crashes_json += fmt( "{\"kind\":%s,\"ops\":%s,\"phase\":%s,\"step\":%d,\"status\":%d,\"signal\":%d,\"stderr\":", json_str( KINDS[kind].name ).c_str(),
                                      ops_json( frontier[citem].h, depth, cop ).c_str(), json_str( PHASE[cphase >= 0 && cphase <= 4 ? cphase : 0] ).c_str(), cstep,
@@ -1046,13 +1089,16 @@ static int explore_kind( int kind, int maxdepth, int jobs, std::string & json, s
         fprintf( stderr, "[instmgr_mc] kind %s depth %d: expanded %lld, transitions %lld, new states %lld\n", KINDS[kind].name, depth + 1,
                  ( long long )nitems, ( long long )level_trans, ( long long )level_new );
         frontier.swap( next );
+        if( !aborted.empty() ) break;
     }
     munmap( pg, sizeof( Progress ) * 256 );
     levels += "]";
     json += fmt( "{\"kind\":%s,\"states\":%lld,\"transitions\":%lld,\"levels\":%s,\"outcomes\":{", json_str( KINDS[kind].name ).c_str(),
                  ( long long )tot.states, ( long long )tot.transitions, levels.c_str() );
     for( int i = 0; i < O_N; i++ ) json += fmt( "%s%s:%lld", i ? "," : "", json_str( ONAME[i] ).c_str(), ( long long )tot.outcomes[i] );
-    json += "}}";
+    json += "}";
+    if( !aborted.empty() ) json += ",\"aborted\":" + json_str( aborted );
+    json += "}";
     return 0;
 }
 
